@@ -666,6 +666,15 @@ func checkC12(r *Result) {
 			{Name: "blockInfo", Event: P.CallEvent(func(c *CallSite) bool { return c.Callee == "(x/dispute/keeper.Keeper).SetBlockInfo" }, T)},
 		}, func(v map[string]bool) bool { return v["blockInfo"] })
 	}
+	// the user group's weight is read from the tip totals: a tip that was paid is added to the tipper's total and to the
+	// grand total on the same success path
+	if fn := need("(x/oracle/keeper.msgServer).Tip"); fn != nil {
+		requireAtSuccess(r, "PERSISTED", fn, "a tip that was paid is counted in the tipper's total and in the total tips", []Atom{
+			{Name: "paid", Event: P.CallEvent(func(c *CallSite) bool { return c.Callee == "(x/oracle/keeper.Keeper).transfer" }, T)},
+			{Name: "tipperTotal", Event: P.CallEvent(func(c *CallSite) bool { return c.Callee == "(x/oracle/keeper.Keeper).AddToTipperTotal" }, T)},
+			{Name: "total", Event: P.CallEvent(func(c *CallSite) bool { return c.Callee == "(x/oracle/keeper.Keeper).AddtoTotalTips" }, T)},
+		}, func(v map[string]bool) bool { return v["paid"] && v["tipperTotal"] && v["total"] })
+	}
 	// the block hook: prevote -> failed is stored, and an ended vote without a result is tallied, in the iteration that finds it
 	if hook := need("x/dispute.CheckOpenDisputesForExpiration"); hook != nil {
 		// the block that is entered when the vote has ended and has no result
@@ -815,7 +824,7 @@ func checkC12(r *Result) {
 		}
 		r.check(okAll && n >= 1 && len(ps.Matched["zeroTotal"]) > 0, "PERSISTED", "x/dispute/keeper.Ratio # divides only by a non-zero total (a group without weight contributes 0)", P.Pos(ra.Pos()), fmt.Sprintf("%d divisions", n))
 	}
-	r.minCount("PERSISTED", 7)
+	r.minCount("PERSISTED", 8)
 	r.minCount("TYPESTATE", 10)
 	r.minCount("VOTE-GUARDS", 8)
 	r.minCount("TALLY-FORMULA", 8)
